@@ -436,7 +436,8 @@ Section Hist.
     Inv (mkstate g [] [] []).
   Proof.
     unfold gt_init, gt0. cbn -[firstn strictly_sorted MAX_RANK]. destruct (stp =? 0) eqn:E; [discriminate|].
-    intros H Erk. rewrite <- Erk in H. rewrite Hrk in H. cbn -[firstn strictly_sorted MAX_RANK] in H. injection H as <-.
+    intros H Erk. rewrite <- Erk in H. rewrite Hrk in H. cbn -[firstn strictly_sorted MAX_RANK] in H.
+    destruct (match rk with first :: _ => first =? 0 | [] => false end); [discriminate|]. injection H as <-.
     constructor; cbn -[Z.div]; auto; try lia.
     intros k. apply user0_ok.
   Qed.
@@ -452,20 +453,32 @@ Section Final.
 
   Let rk := firstn MAX_RANK ranks.
 
-  Lemma init_facts : 0 < stp /\ strictly_sorted rk = true.
+  Hypothesis Hranks : Forall (fun y => 0 <= y) ranks.      (* thresholds are u64 *)
+
+  Lemma init_facts : 0 < stp /\ strictly_sorted rk = true /\ (forall y, In y rk -> 0 < y).
   Proof.
     revert Hinit. unfold gt_init, gt0. cbn -[firstn strictly_sorted MAX_RANK].
-    destruct (stp =? 0) eqn:E; [discriminate|]. fold rk. destruct (strictly_sorted rk); [|discriminate]. intros _. split; [lia|reflexivity].
+    destruct (stp =? 0) eqn:E; [discriminate|]. fold rk. destruct (strictly_sorted rk) eqn:ES; [|discriminate].
+    cbn -[firstn strictly_sorted MAX_RANK].
+    destruct (match rk with first :: _ => first =? 0 | [] => false end) eqn:EF; [discriminate|]. intros _.
+    split; [lia|]. split; [reflexivity|].
+    assert (Hnn : forall y, In y rk -> 0 <= y).
+    { intros y Hy. rewrite Forall_forall in Hranks. apply Hranks. unfold rk in Hy.
+      rewrite <- (firstn_skipn MAX_RANK ranks). apply in_or_app. left. exact Hy. }
+    destruct rk as [|a r] eqn:ER; [intros y []|].
+    destruct (strictly_sorted_cons a r ES) as [_ Hall].
+    assert (Ha : 0 < a). { pose proof (Hnn a (or_introl eq_refl)). destruct (a =? 0) eqn:Ea; [discriminate|lia]. }
+    intros y [<-|Hy]; [exact Ha|]. specialize (Hall y Hy). lia.
   Qed.
 
   Lemma Inv0 : Inv cost0 grow stp rk (mkstate g0 [] [] []).
-  Proof. destruct init_facts as [H1 H2]. eapply Inv_init; eauto. Qed.
+  Proof. destruct init_facts as (H1 & H2 & _). eapply Inv_init; eauto. Qed.
 
   Theorem final_all ops : Forall op_wf ops ->
     let s := run (mkstate g0 [] [] []) ops in
     Inv cost0 grow stp rk s /\ 0 <= g_total (s_gt s).
   Proof.
-    intros F s. destruct init_facts as [H1 H2].
+    intros F s. destruct init_facts as (H1 & H2 & _).
     destruct (run_Inv cost0 grow stp rk H1 Hc Hg H2 ops _ Inv0 F) as [I L]. split; [exact I|]. apply (i_total _ _ _ _ _ I).
   Qed.
 
@@ -494,12 +507,12 @@ Section Final.
   Theorem final_rank ops k : Forall op_wf ops ->
     let s := run (mkstate g0 [] [] []) ops in
     let u := aget user0 (s_users s) k in
-    (0 < u_total u \/ forall y, In y rk -> 0 < y) -> u_rank u = count_le (u_amount u) rk.
+    u_rank u = count_le (u_amount u) rk.
   Proof.
-    intros F s u Hcase. destruct (final_all ops F) as [I _].
+    intros F s u. destruct (final_all ops F) as [I _]. destruct init_facts as (_ & _ & Hpos).
     destruct (i_users _ _ _ _ _ I k) as (_ & _ & _ & [H|(H1 & H2 & H3)]); [exact H|].
-    fold s in H1, H2, H3. fold u in H1, H2, H3. destruct Hcase as [Hc1|Hc2]; [lia|].
-    rewrite H3, H2. symmetry. apply count_le_zero. exact Hc2.
+    fold s in H1, H2, H3. fold u in H1, H2, H3.
+    rewrite H3, H2. symmetry. apply count_le_zero. exact Hpos.
   Qed.
 
   Theorem final_vault ops : Forall op_wf ops ->
@@ -510,7 +523,7 @@ Section Final.
   Theorem final_total_monotone ops1 ops2 : Forall op_wf ops1 -> Forall op_wf ops2 ->
     g_total (s_gt (run (mkstate g0 [] [] []) ops1)) <= g_total (s_gt (run (mkstate g0 [] [] []) (ops1 ++ ops2))).
   Proof.
-    intros F1 F2. destruct init_facts as [H1 H2]. destruct (final_all ops1 F1) as [I _].
+    intros F1 F2. destruct init_facts as (H1 & H2 & _). destruct (final_all ops1 F1) as [I _].
     unfold run. rewrite fold_left_app. fold (run (mkstate g0 [] [] []) ops1).
     apply (run_Inv cost0 grow stp rk H1 Hc Hg H2 ops2 _ I F2).
   Qed.
@@ -528,8 +541,13 @@ Proof.
   - intros (x & -> & Hr & Hlt & Hx). simpl. apply grow1_exact; auto.
 Qed.
 
-(* the failing request of the known finding: a 0 threshold and a user that never held GT *)
-Lemma zero_threshold_refuted :
-  exists ranks g, gt_init gt0 1 5 UNIT 10 ranks = Ok g /\
-    u_rank (aget user0 (s_users (run (mkstate g [] [] []) [])) 1) <> count_le (u_amount user0) (g_ranks g).
-Proof. exists [0; 5]. eexists. split; [vm_compute; reflexivity|vm_compute; discriminate]. Qed.
+(* a rank table with a zero threshold is rejected by init (repaired defect ZeroThresholdFreshUser) *)
+Lemma zero_threshold_rejected t0 cost grow stp r : gt_init gt0 t0 cost grow stp (0 :: r) <> Ok (mkgt t0 0 stp 0 0 0 0 0 grow cost DEFAULT_WINDOW (firstn MAX_RANK (0 :: r)))
+  /\ forall g, gt_init gt0 t0 cost grow stp (0 :: r) <> Ok g.
+Proof.
+  assert (H : forall g, gt_init gt0 t0 cost grow stp (0 :: r) <> Ok g).
+  { intros g. unfold gt_init, gt0. cbn -[strictly_sorted firstn]. destruct (stp =? 0); [discriminate|].
+    change (firstn MAX_RANK (0 :: r)) with (0 :: firstn 14 r).
+    destruct (strictly_sorted (0 :: firstn 14 r)); cbn; discriminate. }
+  split; [apply H|exact H].
+Qed.
